@@ -2,8 +2,29 @@ import PsVerif.Proofs.WF
 /-!
 # Well-formed interpreter states and the re-entrant half of the interpreter (C01)
 
-Part 1 (scanner): every action of `Model/Scanner.lean` the interpreter uses keeps the
-scanner invariant `ScOK` and never fails with `Err.panic`.
+`Proofs/WF.lean` shows that the data operators keep the heap invariant `WF` and never hit a
+panic site.  This file does the same for the rest of the interpreter model: the scanner
+(`Model/Scanner.lean`) and the thirteen mutually recursive functions of `Model/Interp.lean`.
+
+Part 1 (scanner).  `ScOK sc`: the sticky error `sc.err` is not a panic value, and replay mode
+(`regurgitate`) is only on while an eexec section is open (`eexec = 0 → regurgitate = false`).
+`SafeP m Q` says that the scanner action `m`, started in any state with a harmless sticky
+error, leaves `eexec`/`regurgitate` alone, keeps the sticky error harmless, does not fail with
+`Err.panic`, and returns a value satisfying `Q`.  The 31 lemmas `safe_*` cover every action of
+the scanner below `scanToken` (proved by the small decomposition tactic `safe_auto`);
+`readN_val` adds the length bound `readstring` needs; `scanToken_tok`: scanned tokens are strings or
+reference-free objects; `beginEexec_post`: `BeginEexec` keeps `ScOK`, never panics (the
+"nil error returned" site needs `peekN_short`: a short look-ahead outside eexec mode implies
+a recorded error) and leaves the scanner in eexec mode on success; `beginEexec_busy`: inside
+an eexec section it fails without touching the scanner.
+
+Part 2 (states).  `WFS s` = `WF s.vm ∧ ScOK s.scanner`.  `PostS s p` is the postcondition of
+every interpreter function started in `s`: the final state is `WFS`, the heap is only
+extended (`Ext`), `roots` and `scannerDepth` are unchanged, an open eexec section stays open
+(`busy`), and the result is not `Err.panic`.  `All m fuel` states this for the 13 functions
+(objects handed to `executeOne` are `objOK` in the current heap; views handed to the loops
+lie inside their stores, which stays true while the heap is extended); `all_fuel` proves it by
+induction on the fuel.  `execute_post` is the statement for `Execute`.
 -/
 namespace PsVerif.Proofs.WFState
 open PsVerif.Model PsVerif.Model.Scan PsVerif.Proofs.WF
@@ -521,4 +542,1026 @@ theorem scanToken_tok : SafeP scanToken TokOK := by
     | exact SafeP.pure _ (simple_name _)
     | exact SafeP.pure _ (parseNumber_simple (by assumption))
 
+/-! ## Part 2: interpreter states -/
+
+/-- well-formed interpreter state: well-formed data, harmless scanner -/
+structure WFS (s : State) : Prop where
+  vm : WF s.vm
+  sc : ScOK s.scanner
+
+/-- `o` is meaningful in the heap of `s` -/
+abbrev OK (s : State) (o : Obj) : Prop := objOK s.vm.heap s.vm.roots.resources o
+
+/-- `s'` differs from `s` in control fields only -/
+structure Ctl (s s' : State) : Prop where
+  vm : s'.vm = s.vm
+  sc : s'.scanner = s.scanner
+  depth : s'.scannerDepth = s.scannerDepth
+
+theorem Ctl.refl (s : State) : Ctl s s := ⟨rfl, rfl, rfl⟩
+theorem Ctl.trans {a b c : State} (h1 : Ctl a b) (h2 : Ctl b c) : Ctl a c :=
+  ⟨h2.vm.trans h1.vm, h2.sc.trans h1.sc, h2.depth.trans h1.depth⟩
+theorem Ctl.symm {a b : State} (h : Ctl a b) : Ctl b a := ⟨h.vm.symm, h.sc.symm, h.depth.symm⟩
+
+theorem WFS.ctl {s s' : State} (h : WFS s) (c : Ctl s s') : WFS s' :=
+  ⟨by rw [c.vm]; exact h.vm, by rw [c.sc]; exact h.sc⟩
+
+/-- `s'` has the heap, roots and scanner of `s` (its stacks may differ) -/
+structure Sim (s s' : State) : Prop where
+  heap : s'.vm.heap = s.vm.heap
+  roots : s'.vm.roots = s.vm.roots
+  sc : s'.scanner = s.scanner
+  depth : s'.scannerDepth = s.scannerDepth
+
+theorem Ctl.sim {s s' : State} (c : Ctl s s') : Sim s s' :=
+  ⟨by rw [c.vm], by rw [c.vm], c.sc, c.depth⟩
+
+/-- what every function of the interpreter guarantees when started in a well-formed `s` -/
+structure PostS (s : State) (p : State × Res) : Prop where
+  wf : WFS p.1
+  ext : Ext s.vm.heap p.1.vm.heap
+  roots : p.1.vm.roots = s.vm.roots
+  depth : p.1.scannerDepth = s.scannerDepth
+  busy : s.scanner.eexec ≠ 0 →
+    p.1.scanner.eexec = s.scanner.eexec ∧ p.1.scanner.regurgitate = s.scanner.regurgitate
+  nopanic : NoPanic p.2
+
+theorem noPanic_err {e : Err} (h : NPE e) : NoPanic (.err e) := by
+  intro site h'; cases h'; exact h site rfl
+
+theorem noPanic_exit : NoPanic (.err .exit) := by intro s; simp
+theorem noPanic_limit : NoPanic (.err .limit) := by intro s; simp
+
+theorem PostS.refl {s : State} (h : WFS s) {r : Res} (hn : NoPanic r) : PostS s (s, r) :=
+  ⟨h, Ext.refl _, rfl, rfl, fun _ => ⟨rfl, rfl⟩, hn⟩
+
+theorem PostS.ctl {s s' : State} (h : WFS s) (c : Ctl s s') {r : Res} (hn : NoPanic r) : PostS s (s', r) :=
+  ⟨h.ctl c, by show Ext s.vm.heap s'.vm.heap; rw [c.vm]; exact Ext.refl _, by show s'.vm.roots = _; rw [c.vm],
+   c.depth, fun _ => by show s'.scanner.eexec = _ ∧ s'.scanner.regurgitate = _; rw [c.sc]; exact ⟨rfl, rfl⟩, hn⟩
+
+theorem PostS.start {s0 s : State} {p : State × Res} (e : Sim s0 s) (g : PostS s p) : PostS s0 p :=
+  ⟨g.wf, by rw [← e.heap]; exact g.ext, by rw [g.roots, e.roots], by rw [g.depth, e.depth],
+   by rw [← e.sc]; exact g.busy, g.nopanic⟩
+
+theorem PostS.finish {s s1 s2 : State} {r : Res} (g : PostS s (s1, r)) (c : Ctl s1 s2) : PostS s (s2, r) :=
+  ⟨g.wf.ctl c, by show Ext s.vm.heap s2.vm.heap; rw [c.vm]; exact g.ext,
+   by show s2.vm.roots = _; rw [c.vm]; exact g.roots, by show s2.scannerDepth = _; rw [c.depth]; exact g.depth,
+   by show _ → s2.scanner.eexec = _ ∧ s2.scanner.regurgitate = _; rw [c.sc]; exact g.busy, g.nopanic⟩
+
+theorem PostS.withRes {s s1 : State} {r : Res} (g : PostS s (s1, r)) {r' : Res} (hn : NoPanic r') :
+    PostS s (s1, r') := ⟨g.wf, g.ext, g.roots, g.depth, g.busy, hn⟩
+
+theorem PostS.seq {s s1 : State} {r1 : Res} {p : State × Res} (g1 : PostS s (s1, r1)) (g2 : PostS s1 p) :
+    PostS s p :=
+  ⟨g2.wf, Ext.trans g1.ext g2.ext, g2.roots.trans g1.roots, g2.depth.trans g1.depth,
+   fun h => by
+     have a := g1.busy h
+     have b := g2.busy (by show s1.scanner.eexec ≠ 0; rw [a.1]; exact h)
+     exact ⟨b.1.trans a.1, b.2.trans a.2⟩,
+   g2.nopanic⟩
+
+/-- objects stay meaningful along a run -/
+theorem PostS.ok {s s1 : State} {r : Res} (g : PostS s (s1, r)) {o : Obj} (h : OK s o) : OK s1 o := by
+  show objOK s1.vm.heap s1.vm.roots.resources o
+  rw [g.roots]; exact objOK_mono g.ext h
+
+theorem Sim.ok {s s1 : State} (e : Sim s s1) {o : Obj} (h : OK s o) : OK s1 o := by
+  show objOK s1.vm.heap s1.vm.roots.resources o
+  rw [e.heap, e.roots]; exact h
+
+theorem postS_psErrS {s s' : State} (h : WFS s) (c : Ctl s s') (n : ErrName) : PostS s (psErrS s' n) :=
+  PostS.ctl h c (noPanic_ps n)
+theorem postS_okS {s s' : State} (h : WFS s) (c : Ctl s s') : PostS s (okS s') :=
+  PostS.ctl h c noPanic_ok
+
+/-- a data operator applied to the data half -/
+theorem PostS.vm {s : State} (h : WFS s) {v : VM} {r : Res} (hp : Post s.vm (v, r)) :
+    PostS s ({ s with vm := v }, r) :=
+  ⟨⟨hp.wf, h.sc⟩, hp.ext, hp.roots, rfl, fun _ => ⟨rfl, rfl⟩, hp.nopanic⟩
+
+/-- precondition of everything below `scanLoop`: a scanner is installed -/
+def Pre (s : State) : Prop := WFS s ∧ s.scannerDepth ≠ 0
+
+theorem PostS.pre {s s1 : State} {r : Res} (g : PostS s (s1, r)) (hp : Pre s) : Pre s1 :=
+  ⟨g.wf, by rw [g.depth]; exact hp.2⟩
+
+theorem Pre.ctl {s s' : State} (h : Pre s) (c : Ctl s s') : Pre s' := ⟨h.1.ctl c, by rw [c.depth]; exact h.2⟩
+
+/-- replacing the operand stack by objects that are fine in the current heap -/
+theorem wfs_setStack {s : State} (h : WFS s) {st : List Obj} (hst : ∀ o ∈ st, OK s o) : WFS (setStack s st) :=
+  ⟨(Post.same (v' := { s.vm with stack := st }) (r := .ok) h.vm rfl rfl rfl rfl rfl hst noPanic_ok).wf, h.sc⟩
+
+theorem sim_setStack (s : State) (st : List Obj) : Sim s (setStack s st) := ⟨rfl, rfl, rfl, rfl⟩
+
+theorem pre_setStack {s : State} (h : Pre s) {st : List Obj} (hst : ∀ o ∈ st, OK s o) : Pre (setStack s st) :=
+  ⟨wfs_setStack h.1 hst, h.2⟩
+
+theorem pushS_eq (s : State) (o : Obj) : pushS s o = setStack s (o :: s.vm.stack) := rfl
+
+theorem wfs_pushS {s : State} (h : WFS s) {o : Obj} (ho : OK s o) : WFS (pushS s o) := by
+  rw [pushS_eq]
+  refine wfs_setStack h ?_
+  intro x hx
+  rcases List.mem_cons.mp hx with rfl | hx
+  · exact ho
+  · exact h.vm.stack x hx
+
+theorem postS_pushS {s : State} (h : WFS s) {o : Obj} (ho : OK s o) : PostS s (okS (pushS s o)) :=
+  PostS.start (sim_setStack s _) (PostS.refl (wfs_pushS h ho) noPanic_ok)
+
+/-- views -/
+def ViewObjs (s : State) (ref lim : Nat) : Prop := ∃ n, shapeAt s.vm.heap ref = some (.objs n) ∧ lim ≤ n
+def ViewBytes (s : State) (ref lim : Nat) : Prop := ∃ n, shapeAt s.vm.heap ref = some (.bytes n) ∧ lim ≤ n
+
+theorem PostS.viewObjs {s s1 : State} {r : Res} (g : PostS s (s1, r)) {ref lim : Nat} (h : ViewObjs s ref lim) :
+    ViewObjs s1 ref lim := by
+  obtain ⟨n, h1, h2⟩ := h; exact ⟨n, g.ext _ _ h1, h2⟩
+theorem PostS.viewBytes {s s1 : State} {r : Res} (g : PostS s (s1, r)) {ref lim : Nat} (h : ViewBytes s ref lim) :
+    ViewBytes s1 ref lim := by
+  obtain ⟨n, h1, h2⟩ := h; exact ⟨n, g.ext _ _ h1, h2⟩
+theorem Sim.viewObjs {s s1 : State} (e : Sim s s1) {ref lim : Nat} (h : ViewObjs s ref lim) : ViewObjs s1 ref lim := by
+  unfold ViewObjs; rw [e.heap]; exact h
+theorem Sim.viewBytes {s s1 : State} (e : Sim s s1) {ref lim : Nat} (h : ViewBytes s ref lim) : ViewBytes s1 ref lim := by
+  unfold ViewBytes; rw [e.heap]; exact h
+
+/-- an element inside a valid view exists and is a meaningful object -/
+theorem view_get {s : State} (h : WFS s) {ref lim k : Nat} (hv : ViewObjs s ref lim) (hk : k < lim) :
+    ∃ x, (s.vm.getObjs ref)[k]? = some x ∧ OK s x := by
+  obtain ⟨n, h1, h2⟩ := hv
+  have := objsAt_ok h.vm.heap h1
+  rw [getObjs_eq]
+  have hlt : k < (objsAt s.vm.heap ref).size := by rw [this.1]; omega
+  refine ⟨(objsAt s.vm.heap ref)[k], by simp [hlt], this.2 _ (Array.getElem_mem hlt)⟩
+
+theorem view_get_bytes {s : State} (h : WFS s) {ref lim k : Nat} (hv : ViewBytes s ref lim) (hk : k < lim) :
+    ∃ x, (s.vm.getBytes ref)[k]? = some x := by
+  obtain ⟨n, h1, h2⟩ := hv
+  obtain ⟨a, ha, hn, hq⟩ := cell_of_shape_bytes h1
+  rw [getBytes_eq, hq]
+  have hlt : k < a.size := by omega
+  exact ⟨a[k], by simp [hlt]⟩
+
+/-! ### scanner actions on a state -/
+
+theorem withScanner_fst {α : Type} (s : State) (m : SM α) :
+    (withScanner s m).1 = { s with scanner := (m s.scanner).2 } := rfl
+theorem withScanner_snd {α : Type} (s : State) (m : SM α) : (withScanner s m).2 = (m s.scanner).1 := rfl
+
+/-- a `Safe` scanner action: data untouched, scanner still fine, `eexec`/`regurgitate` kept -/
+structure ScanStep (s s1 : State) : Prop where
+  vm : s1.vm = s.vm
+  depth : s1.scannerDepth = s.scannerDepth
+  eexec : s1.scanner.eexec = s.scanner.eexec
+  reg : s1.scanner.regurgitate = s.scanner.regurgitate
+  err : ErrOK s1.scanner
+
+theorem ScanStep.wfs {s s1 : State} (c : ScanStep s s1) (h : WFS s) : WFS s1 :=
+  ⟨by rw [c.vm]; exact h.vm, ⟨c.err, by rw [c.eexec, c.reg]; exact h.sc.reg⟩⟩
+
+theorem ScanStep.post {s s1 : State} (c : ScanStep s s1) (h : WFS s) {r : Res} (hn : NoPanic r) : PostS s (s1, r) :=
+  ⟨c.wfs h, by show Ext s.vm.heap s1.vm.heap; rw [c.vm]; exact Ext.refl _, by show s1.vm.roots = _; rw [c.vm],
+   c.depth, fun _ => ⟨c.eexec, c.reg⟩, hn⟩
+
+theorem withScanner_safe {α : Type} {m : SM α} {Q : α → Prop} (hm : SafeP m Q) (s : State) (h : WFS s) :
+    ScanStep s (withScanner s m).1 ∧ ResOK (withScanner s m).2 ∧ ∀ a, (withScanner s m).2 = .ok a → Q a := by
+  obtain ⟨g1, g2, g3, g4, g5⟩ := hm.run s.scanner h.sc.err
+  exact ⟨⟨rfl, rfl, g1, g2, g3⟩, g4, g5⟩
+
+/-- the token handed to `executeOne` -/
+theorem objOfTok_post {s : State} (h : WFS s) {tok : Tok} (ht : TokOK tok) :
+    PostS s ((objOfTok s tok).1, .ok) ∧ OK (objOfTok s tok).1 (objOfTok s tok).2 := by
+  cases tok with
+  | obj o => exact ⟨PostS.refl h noPanic_ok, ht _ _⟩
+  | str bytes =>
+    unfold objOfTok VM.alloc
+    dsimp only
+    have hp : Post s.vm ({ s.vm with heap := s.vm.heap.push (.bytes bytes.toArray) }, .ok) :=
+      Post.alloc h.vm (by simp only [cellOK]) rfl rfl rfl rfl rfl
+        (fun o ho => objOK_push _ (h.vm.stack o ho))
+    refine ⟨PostS.vm h hp, ?_⟩
+    show objOK (s.vm.heap.push (.bytes bytes.toArray)) s.vm.roots.resources (.str s.vm.heap.size 0 bytes.length)
+    exact ⟨bytes.toArray.size, shapeAt_push_self _ _, by simp⟩
+
+/-! ### the dictionary stack around `eexec` -/
+
+theorem wf_pushDict {v : VM} (h : WF v) {d : Nat} (hd : isDictRef v.heap v.roots.resources d)
+    {st : List Obj} (hst : ∀ o ∈ st, objOK v.heap v.roots.resources o) :
+    WF (pushDict { v with stack := st } d) := by
+  refine h.update' rfl (Ext.refl _) h.heap rfl ?_ ?_ ?_ h.cmap hst
+  · show 2 ≤ (d :: v.dictStack).length
+    have := h.dsLen; simp only [List.length_cons]; omega
+  · intro r hr
+    rcases List.mem_cons.mp hr with rfl | hr
+    · exact hd
+    · exact h.ds r hr
+  · intro r hr
+    exact h.ghost r (List.mem_of_mem_tail hr)
+
+theorem wf_truncDictStack {v : VM} (h : WF v) {k : Nat} (hk : 2 ≤ k) : WF (truncDictStack v k) := by
+  unfold truncDictStack
+  dsimp only
+  split
+  · rename_i hle
+    refine h.update' rfl (Ext.refl _) h.heap rfl ?_ ?_ ?_ h.cmap h.stack
+    · show 2 ≤ (v.dictStack.drop (v.dictStack.length - k)).length
+      simp only [List.length_drop]; omega
+    · intro r hr; exact h.ds r (List.mem_of_mem_drop hr)
+    · intro r hr
+      rcases List.mem_append.mp hr with hr | hr
+      · exact h.ds r (List.mem_of_mem_take (List.mem_reverse.mp hr))
+      · exact h.ghost r hr
+  · refine h.update' rfl (Ext.refl _) h.heap rfl ?_ ?_ ?_ h.cmap h.stack
+    · show 2 ≤ ((v.dictGhost.take (k - v.dictStack.length)).reverse ++ v.dictStack).length
+      have := h.dsLen
+      simp only [List.length_append]; omega
+    · intro r hr
+      rcases List.mem_append.mp hr with hr | hr
+      · exact h.ghost r (List.mem_of_mem_take (List.mem_reverse.mp hr))
+      · exact h.ds r hr
+    · intro r hr; exact h.ghost r (List.mem_of_mem_drop hr)
+
+theorem truncDictStack_heap (v : VM) (k : Nat) : (truncDictStack v k).heap = v.heap := by
+  unfold truncDictStack; dsimp only; split <;> rfl
+theorem truncDictStack_roots (v : VM) (k : Nat) : (truncDictStack v k).roots = v.roots := by
+  unfold truncDictStack; dsimp only; split <;> rfl
+
+/-- finishing with a truncated dictionary stack and possibly another scanner state -/
+theorem PostS.trunc {s s1 : State} {r : Res} (g : PostS s (s1, r)) {k : Nat} (hk : 2 ≤ k) {r' : Res}
+    (hn : NoPanic r') : PostS s ({ s1 with vm := truncDictStack s1.vm k }, r') :=
+  ⟨⟨wf_truncDictStack g.wf.vm hk, g.wf.sc⟩,
+   by show Ext s.vm.heap (truncDictStack s1.vm k).heap; rw [truncDictStack_heap]; exact g.ext,
+   by show (truncDictStack s1.vm k).roots = _; rw [truncDictStack_roots]; exact g.roots,
+   g.depth, g.busy, hn⟩
+
+theorem defaultErrorHandler_post {s : State} (h : WFS s) : PostS s (defaultErrorHandler s) := by
+  unfold defaultErrorHandler
+  split
+  · exact PostS.refl h noPanic_ok
+  · exact PostS.refl h (noPanic_ps _)
+
+/-! ### `readstring` -/
+
+theorem readN_val : ∀ n acc, SafeP (readN n acc)
+    (fun p => p.1.length ≤ acc.length + n ∧ ∀ e, p.2 = some e → NPE e) := by
+  intro n
+  induction n with
+  | zero =>
+    intro acc; unfold readN
+    exact SafeP.pure _ ⟨Nat.le_refl _, by intro e h; cases h⟩
+  | succ k ih =>
+    intro acc; unfold readN
+    refine SafeP.bind (SafeP.attempt safe_next) ?_
+    intro r hr
+    split
+    · rename_i e
+      exact SafeP.pure _ ⟨by simp only; omega, by intro e' h; cases h; exact hr _ rfl⟩
+    · rename_i b
+      refine SafeP.weaken (ih (acc ++ [b])) ?_
+      intro p hp
+      refine ⟨?_, hp.2⟩
+      have := hp.1
+      simp only [List.length_append, List.length_cons, List.length_nil] at this
+      omega
+
+theorem readstring_post {s : State} (hp : Pre s) : PostS s (bReadstring s) := by
+  obtain ⟨h, hd⟩ := hp
+  unfold bReadstring readstringCore
+  split
+  · rename_i buf x rest hst
+    have hrest : ∀ o ∈ rest, OK s o := by
+      intro o ho; exact h.vm.stack o (by rw [hst]; simp [ho])
+    have hbuf : OK s buf := h.vm.stack buf (by rw [hst]; simp)
+    split
+    · rename_i r o l
+      have hd' : (s.scannerDepth == 0) = false := by simp [hd]
+      simp only [hd', Bool.false_eq_true, if_false]
+      -- first byte
+      have h1 := safe_next.run s.scanner h.sc.err
+      unfold SafeAt at h1
+      generalize Scan.next s.scanner = p1 at h1
+      obtain ⟨r1, sc2⟩ := p1
+      obtain ⟨a1, a2, a3, a4, a5⟩ := h1
+      dsimp only at a1 a2 a3 ⊢
+      have wf1 : WF ({ s.vm with stack := rest } : VM) :=
+        (Post.same (v' := { s.vm with stack := rest }) (r := .ok) h.vm rfl rfl rfl rfl rfl hrest noPanic_ok).wf
+      have sc2ok : ScOK sc2 := ⟨a3, by rw [a1, a2]; exact h.sc.reg⟩
+      split
+      · -- the reader failed
+        rename_i e hstop
+        refine ⟨⟨wf1, sc2ok⟩, Ext.refl _, rfl, rfl, fun _ => ⟨a1, a2⟩, ?_⟩
+        apply noPanic_err
+        split at hstop
+        · cases hstop
+        · rename_i e' _; cases hstop; exact a4 _ rfl
+        · cases hstop
+      · -- read up to `l` bytes
+        have h2 := (readN_val l []).run sc2 a3
+        unfold SafeAt at h2
+        generalize Scan.readN l [] sc2 = p2 at h2
+        obtain ⟨r2, sc3⟩ := p2
+        obtain ⟨b1, b2, b3, b4, b5⟩ := h2
+        dsimp only at b1 b2 b3 ⊢
+        have sc3ok : ScOK sc3 := ⟨b3, by rw [b1, b2, a1, a2]; exact h.sc.reg⟩
+        have busy3 : s.scanner.eexec ≠ 0 → sc3.eexec = s.scanner.eexec ∧ sc3.regurgitate = s.scanner.regurgitate :=
+          fun _ => ⟨b1.trans a1, b2.trans a2⟩
+        split
+        · rename_i e
+          exact ⟨⟨wf1, sc3ok⟩, Ext.refl _, rfl, rfl, busy3, noPanic_err (b4 _ rfl)⟩
+        · rename_i bytes eo
+          have hval := b5 _ rfl
+          dsimp only at hval
+          obtain ⟨n, hn, hle⟩ := hbuf
+          have hn1 : shapeAt ({ s.vm with stack := rest } : VM).heap r = some (.bytes n) := hn
+          have hsz : (writeAt (({ s.vm with stack := rest } : VM).getBytes r) o bytes).size =
+              (({ s.vm with stack := rest } : VM).getBytes r).size := writeAt_size _ _ _
+          have hrest1 : ∀ x ∈ rest, objOK ({ s.vm with stack := rest } : VM).heap
+              ({ s.vm with stack := rest } : VM).roots.resources x := hrest
+          split
+          · rename_i e hbad
+            have hnp : NoPanic (.err e) := by
+              apply noPanic_err
+              split at hbad
+              · cases hbad
+              · rename_i e' _; cases hbad; exact hval.2 _ rfl
+              · cases hbad
+            have pp := put_bytes (v' := ({ s.vm with stack := rest } : VM).setCell r
+                (.bytes (writeAt (({ s.vm with stack := rest } : VM).getBytes r) o bytes)))
+              wf1 hn1 hsz rfl rfl rfl rfl rfl hrest1 hnp
+            exact ⟨⟨pp.wf, sc3ok⟩, pp.ext, pp.roots, rfl, busy3, hnp⟩
+          · have hst2 : ∀ x ∈ (Obj.bool (bytes.length == l) :: Obj.str r o bytes.length :: rest),
+                objOK ({ s.vm with stack := rest } : VM).heap ({ s.vm with stack := rest } : VM).roots.resources x := by
+              intro x hx
+              rcases List.mem_cons.mp hx with rfl | hx
+              · trivial
+              · rcases List.mem_cons.mp hx with rfl | hx
+                · refine ⟨n, hn, ?_⟩
+                  have := hval.1
+                  simp only [List.length_nil] at this
+                  omega
+                · exact hrest x hx
+            have pp := put_bytes (v' := { (({ s.vm with stack := rest } : VM).setCell r
+                (.bytes (writeAt (({ s.vm with stack := rest } : VM).getBytes r) o bytes))) with
+                  stack := Obj.bool (bytes.length == l) :: Obj.str r o bytes.length :: rest })
+              wf1 hn1 hsz rfl rfl rfl rfl rfl hst2 noPanic_ok
+            exact ⟨⟨pp.wf, sc3ok⟩, pp.ext, pp.roots, rfl, busy3, noPanic_ok⟩
+    · exact PostS.refl h (noPanic_ps _)
+  · exact PostS.refl h (noPanic_ps _)
+
+/-! ### the simultaneous induction over the interpreter's mutual block -/
+
+/-- the statement proved for all functions of the mutual block at once -/
+structure All (m fuel : Nat) : Prop where
+  one : ∀ s o b, Pre s → OK s o → PostS s (execOne fuel m s o b)
+  body : ∀ s o b, Pre s → OK s o → PostS s (execBody fuel m s o b)
+  tail : ∀ s o b c, Pre s → OK s o → PostS s (execTail fuel m s o b c)
+  run : ∀ s r o i n, Pre s → ViewObjs s r (o + i + n) → PostS s (runBody fuel m s r o i n)
+  call : ∀ s id, Pre s → knownBuiltin id → PostS s (callBuiltin fuel m s id)
+  forL : ∀ s v i l p, Pre s → OK s p → PostS s (forLoop fuel m s v i l p)
+  rep : ∀ s k p, Pre s → OK s p → PostS s (repeatLoop fuel m s k p)
+  loop : ∀ s p, Pre s → OK s p → PostS s (loopLoop fuel m s p)
+  fArr : ∀ s r o i n p, Pre s → OK s p → ViewObjs s r (o + i + n) → PostS s (forallArr fuel m s r o i n p)
+  fStr : ∀ s r o i n p, Pre s → OK s p → ViewBytes s r (o + i + n) → PostS s (forallStr fuel m s r o i n p)
+  fDict : ∀ s d ks p, Pre s → OK s p → isDictRef s.vm.heap s.vm.roots.resources d →
+    PostS s (forallDict fuel m s d ks p)
+  sRun : ∀ s, WFS s → PostS s (scanRun fuel m s)
+  sLoop : ∀ s, Pre s → PostS s (scanLoop fuel m s)
+
+theorem all_zero (m : Nat) : All m 0 where
+  one := by intro s o b hp _; simp only [execOne]; exact PostS.refl hp.1 noPanic_fuel
+  body := by intro s o b hp _; simp only [execBody]; exact PostS.refl hp.1 noPanic_fuel
+  tail := by intro s o b c hp _; simp only [execTail]; exact PostS.refl hp.1 noPanic_fuel
+  run := by intro s r o i n hp _; simp only [runBody]; exact PostS.refl hp.1 noPanic_fuel
+  call := by intro s id hp _; simp only [callBuiltin]; exact PostS.refl hp.1 noPanic_fuel
+  forL := by intro s v i l p hp _; simp only [forLoop]; exact PostS.refl hp.1 noPanic_fuel
+  rep := by intro s k p hp _; simp only [repeatLoop]; exact PostS.refl hp.1 noPanic_fuel
+  loop := by intro s p hp _; simp only [loopLoop]; exact PostS.refl hp.1 noPanic_fuel
+  fArr := by intro s r o i n p hp _ _; simp only [forallArr]; exact PostS.refl hp.1 noPanic_fuel
+  fStr := by intro s r o i n p hp _ _; simp only [forallStr]; exact PostS.refl hp.1 noPanic_fuel
+  fDict := by intro s d ks p hp _ _; simp only [forallDict]; exact PostS.refl hp.1 noPanic_fuel
+  sRun := by intro s h; simp only [scanRun]; exact PostS.refl h noPanic_fuel
+  sLoop := by intro s hp; simp only [scanLoop]; exact PostS.refl hp.1 noPanic_fuel
+
+theorem step_execOne {m n : Nat} (ih : All m n) (s : State) (o : Obj) (b : Bool) (hp : Pre s) (ho : OK s o) :
+    PostS s (execOne (n + 1) m s o b) := by
+  simp only [execOne]
+  split
+  · split
+    · exact PostS.refl hp.1 (noPanic_ps _)
+    · generalize hs' : ({ s with execDepth := s.execDepth + 1, hiDepth := max s.hiDepth (s.execDepth + 1) } : State) = s'
+      have c : Ctl s s' := by subst hs'; exact ⟨rfl, rfl, rfl⟩
+      have g := ih.body s' o true (hp.ctl c) (c.sim.ok ho)
+      generalize execBody n m s' o true = p at g
+      obtain ⟨s1, r⟩ := p
+      exact (PostS.start c.sim g).finish ⟨rfl, rfl, rfl⟩
+  · exact ih.body s o false hp ho
+
+theorem step_execBody {m n : Nat} (ih : All m n) (s : State) (o : Obj) (b : Bool) (hp : Pre s) (ho : OK s o) :
+    PostS s (execBody (n + 1) m s o b) := by
+  simp only [execBody]
+  split
+  · exact PostS.refl hp.1 (noPanic_ps _)
+  · split
+    · split
+      · exact PostS.refl hp.1 (noPanic_ps _)
+      · rename_i a ps _
+        split
+        · exact postS_psErrS hp.1 (by exact ⟨rfl, rfl, rfl⟩) _
+        · rename_i hba
+          unfold VM.alloc
+          dsimp only
+          have hbody : cellOK s.vm.heap s.vm.roots.resources
+              (.objs (s.vm.stack.take (s.vm.stack.length - a)).reverse.toArray) := by
+            simp only [cellOK]
+            intro x hx
+            have hx' : x ∈ (s.vm.stack.take (s.vm.stack.length - a)).reverse := by simpa using hx
+            exact hp.1.vm.stack x (List.mem_of_mem_take (List.mem_reverse.mp hx'))
+          have hpost := Post.alloc (v := s.vm)
+            (v' := { s.vm with heap := s.vm.heap.push (.objs (s.vm.stack.take (s.vm.stack.length - a)).reverse.toArray),
+                               stack := .proc s.vm.heap.size 0 (s.vm.stack.length - a) :: s.vm.stack.drop (s.vm.stack.length - a) })
+            hp.1.vm hbody rfl rfl rfl rfl rfl (by
+              intro x hx
+              rcases List.mem_cons.mp hx with rfl | hx
+              · refine ⟨_, shapeAt_push_self _ _, ?_⟩
+                simp only [shape, List.size_toArray, List.length_reverse, List.length_take]
+                omega
+              · exact objOK_push _ (hp.1.vm.stack x (List.mem_of_mem_drop hx)))
+          exact (PostS.vm hp.1 hpost).finish ⟨rfl, rfl, rfl⟩
+    · split
+      · exact postS_okS hp.1 (by exact ⟨rfl, rfl, rfl⟩)
+      · split
+        · exact postS_pushS hp.1 ho
+        · exact ih.tail s o b b hp ho
+
+theorem ctl_enterLevel (c : Bool) (s : State) : Ctl s (enterLevel c s) := by
+  unfold enterLevel; split <;> exact ⟨rfl, rfl, rfl⟩
+
+theorem postS_leaveLevel {s : State} {p : State × Res} (c : Bool) (g : PostS s p) : PostS s (leaveLevel c p) := by
+  unfold leaveLevel
+  split
+  · exact g
+  · exact PostS.finish (s1 := p.1) (r := p.2) g ⟨rfl, rfl, rfl⟩
+
+theorem viewObjs_of_ok {s : State} {r o l : Nat} (h : OK s (.proc r o l)) : ViewObjs s r (o + l) := h
+theorem viewObjs_of_arr {s : State} {r o l : Nat} (h : OK s (.arr r o l)) : ViewObjs s r (o + l) := h
+theorem viewBytes_of_str {s : State} {r o l : Nat} (h : OK s (.str r o l)) : ViewBytes s r (o + l) := h
+
+theorem ViewObjs.le {s : State} {r a b : Nat} (h : ViewObjs s r a) (hle : b ≤ a) : ViewObjs s r b := by
+  obtain ⟨n, h1, h2⟩ := h; exact ⟨n, h1, by omega⟩
+theorem ViewBytes.le {s : State} {r a b : Nat} (h : ViewBytes s r a) (hle : b ≤ a) : ViewBytes s r b := by
+  obtain ⟨n, h1, h2⟩ := h; exact ⟨n, h1, by omega⟩
+
+/-- the `Procedure` case of the `recurseTail` loop, for any state -/
+theorem proc_case {m n : Nat} (ih : All m n) (s' : State) (ref off len : Nat) (b c : Bool)
+    (hp' : Pre s') (ho' : OK s' (.proc ref off len)) :
+    PostS s'
+      (if b = true then
+        if (len == 0) = true then okS s'
+        else
+          if (!c && decide (s'.execDepth ≥ execDepthLimit)) = true then psErrS s' "execstackoverflow"
+          else
+            leaveLevel c
+              (match runBody n m (enterLevel c s') ref off 0 (len - 1) with
+               | (s1, r) =>
+                 (match r with
+                  | .ok =>
+                    match (s1.vm.getObjs ref)[off + (len - 1)]? with
+                    | some last => execTail n m s1 last false true
+                    | none => (s1, .err (.panic "procedure view outside its store"))
+                  | _ => (s1, r) : State × Res))
+      else okS (pushS s' (Obj.proc ref off len))) := by
+  split
+  · split
+    · exact PostS.refl hp'.1 noPanic_ok
+    · split
+      · exact PostS.refl hp'.1 (noPanic_ps _)
+      · apply postS_leaveLevel
+        rename_i hlen _
+        have hlen' : len ≠ 0 := by simpa using hlen
+        have ce := ctl_enterLevel c s'
+        generalize enterLevel c s' = s'' at ce
+        apply PostS.start ce.sim
+        have hp'' : Pre s'' := hp'.ctl ce
+        have hv : ViewObjs s'' ref (off + len) := ce.sim.viewObjs (viewObjs_of_ok ho')
+        have g1 := ih.run s'' ref off 0 (len - 1) hp'' (hv.le (by omega))
+        generalize runBody n m s'' ref off 0 (len - 1) = p1 at g1
+        obtain ⟨s1, r⟩ := p1
+        simp only
+        split
+        · obtain ⟨x, hx, hxok⟩ := view_get g1.wf (g1.viewObjs hv) (k := off + (len - 1)) (by omega)
+          split
+          · rename_i last hl
+            rw [hx] at hl
+            cases hl
+            exact g1.seq (ih.tail s1 _ false true (g1.pre hp'') hxok)
+          · rename_i hl
+            rw [hx] at hl
+            cases hl
+        · exact g1
+  · exact postS_pushS hp'.1 ho'
+
+theorem step_execTail {m n : Nat} (ih : All m n) (s : State) (o : Obj) (b cnt : Bool) (hp : Pre s) (ho : OK s o) :
+    PostS s (execTail (n + 1) m s o b cnt) := by
+  unfold execTail
+  dsimp only
+  split
+  · exact PostS.ctl hp.1 (by exact ⟨rfl, rfl, rfl⟩) noPanic_limit
+  · split
+    · -- executable name
+      rename_i nm
+      generalize hs' : ({ s with numOps := s.numOps + 1 } : State) = s'
+      have c : Ctl s s' := by subst hs'; exact ⟨rfl, rfl, rfl⟩
+      have hp' : Pre s' := hp.ctl c
+      have ho' := c.sim.ok ho
+      apply PostS.start c.sim
+      split
+      · exact PostS.refl hp'.1 (noPanic_ps _)
+      · rename_i v hv
+        exact ih.tail s' v true cnt hp' (c.sim.ok (lookupName_ok hp.1.vm hv))
+    · -- builtin
+      rename_i id
+      generalize hs' : ({ s with numOps := s.numOps + 1 } : State) = s'
+      have c : Ctl s s' := by subst hs'; exact ⟨rfl, rfl, rfl⟩
+      have hp' : Pre s' := hp.ctl c
+      have ho' := c.sim.ok ho
+      apply PostS.start c.sim
+      have g1 := ih.call s' id hp' ho'
+      generalize callBuiltin n m s' id = p1 at g1
+      obtain ⟨s1, r⟩ := p1
+      simp only
+      have hp1 : Pre s1 := g1.pre hp'
+      split
+      · rename_i name
+        split
+        · generalize hs2 : ({ s1 with errors := name :: s1.errors, hiErrors := max s1.hiErrors (s1.errors.length + 1) } : State) = s2
+          have c2 : Ctl s1 s2 := by subst hs2; exact ⟨rfl, rfl, rfl⟩
+          have hp2 : Pre s2 := hp1.ctl c2
+          split
+          · rename_i handler hh
+            have hok : OK s1 handler := dictGet_ok hp1.1.vm hp1.1.vm.rError.1 hh
+            have g3 := ih.one s2 handler true hp2 (c2.sim.ok hok)
+            generalize execOne n m s2 handler true = p3 at g3
+            obtain ⟨s3, r3⟩ := p3
+            exact g1.seq (PostS.start c2.sim (g3.finish (by exact ⟨rfl, rfl, rfl⟩)))
+          · exact (g1.finish c2).finish (by exact ⟨rfl, rfl, rfl⟩)
+        · exact g1
+      · exact g1
+    · -- procedure
+      rename_i ref off len
+      exact PostS.start (Ctl.sim (by exact ⟨rfl, rfl, rfl⟩))
+        (proc_case ih _ ref off len b cnt (hp.ctl (by exact ⟨rfl, rfl, rfl⟩)) ho)
+    · generalize hs' : ({ s with numOps := s.numOps + 1 } : State) = s'
+      have c : Ctl s s' := by subst hs'; exact ⟨rfl, rfl, rfl⟩
+      have hp' : Pre s' := hp.ctl c
+      have ho' := c.sim.ok ho
+      apply PostS.start c.sim
+      exact postS_pushS hp'.1 ho'
+
+theorem step_runBody {m n : Nat} (ih : All m n) (s : State) (r o i t : Nat) (hp : Pre s)
+    (hv : ViewObjs s r (o + i + t)) : PostS s (runBody (n + 1) m s r o i t) := by
+  cases t with
+  | zero => simp only [runBody]; exact PostS.refl hp.1 noPanic_ok
+  | succ t =>
+    simp only [runBody]
+    obtain ⟨x, hx, hxok⟩ := view_get hp.1 hv (k := o + i) (by omega)
+    split
+    · rename_i hnone; rw [hx] at hnone; cases hnone
+    · rename_i tok htok
+      rw [hx] at htok; cases htok
+      have g1 := ih.one s x false hp hxok
+      generalize execOne n m s x false = p1 at g1
+      obtain ⟨s1, r1⟩ := p1
+      dsimp only
+      split
+      · exact g1.seq (ih.run s1 r o (i + 1) t (g1.pre hp) ((g1.viewObjs hv).le (by omega)))
+      · exact g1
+
+/-- the common shape of the looping operators -/
+def loopResult (r1 : Res) (s1 : State) (next : State × Res) : State × Res :=
+  match r1 with
+  | .err .exit => okS s1
+  | .ok => next
+  | _ => (s1, r1)
+
+theorem postS_loop {s s0 s1 : State} {r1 : Res} {next : State × Res} (e : Sim s s0)
+    (g1 : PostS s0 (s1, r1)) (gn : PostS s1 next) : PostS s (loopResult r1 s1 next) := by
+  apply PostS.start e
+  unfold loopResult
+  split
+  · exact g1.withRes noPanic_ok
+  · exact g1.seq gn
+  · exact g1
+
+theorem step_forLoop {m n : Nat} (ih : All m n) (s : State) (v i l : Int) (p : Obj) (hp : Pre s) (ho : OK s p) :
+    PostS s (forLoop (n + 1) m s v i l p) := by
+  simp only [forLoop]
+  split
+  · exact PostS.refl hp.1 noPanic_ok
+  · have hp0 : Pre (pushS s (.int v)) := ⟨wfs_pushS hp.1 (by trivial), hp.2⟩
+    have g1 := ih.one (pushS s (.int v)) p true hp0 ho
+    generalize execOne n m (pushS s (.int v)) p true = p1 at g1
+    obtain ⟨s1, r1⟩ := p1
+    dsimp only
+    refine postS_loop (next := if (i > 0 ∧ v > maxInt64 - i) ∨ (i < 0 ∧ v < minInt64 - i) then okS s1
+      else forLoop n m s1 (wrap64 (v + i)) i l p) (sim_setStack s _) g1 ?_
+    split
+    · exact PostS.refl g1.wf noPanic_ok
+    · exact ih.forL s1 _ i l p (g1.pre hp0) (g1.ok ho)
+
+theorem step_repeatLoop {m n : Nat} (ih : All m n) (s : State) (k : Nat) (p : Obj) (hp : Pre s) (ho : OK s p) :
+    PostS s (repeatLoop (n + 1) m s k p) := by
+  cases k with
+  | zero => simp only [repeatLoop]; exact PostS.refl hp.1 noPanic_ok
+  | succ k =>
+    simp only [repeatLoop]
+    have g1 := ih.one s p true hp ho
+    generalize execOne n m s p true = p1 at g1
+    obtain ⟨s1, r1⟩ := p1
+    dsimp only
+    exact postS_loop (Ctl.refl s).sim g1 (ih.rep s1 k p (g1.pre hp) (g1.ok ho))
+
+theorem step_loopLoop {m n : Nat} (ih : All m n) (s : State) (p : Obj) (hp : Pre s) (ho : OK s p) :
+    PostS s (loopLoop (n + 1) m s p) := by
+  simp only [loopLoop]
+  have g1 := ih.one s p true hp ho
+  generalize execOne n m s p true = p1 at g1
+  obtain ⟨s1, r1⟩ := p1
+  dsimp only
+  exact postS_loop (Ctl.refl s).sim g1 (ih.loop s1 p (g1.pre hp) (g1.ok ho))
+
+theorem step_forallArr {m n : Nat} (ih : All m n) (s : State) (r o i t : Nat) (p : Obj) (hp : Pre s)
+    (ho : OK s p) (hv : ViewObjs s r (o + i + t)) : PostS s (forallArr (n + 1) m s r o i t p) := by
+  cases t with
+  | zero => simp only [forallArr]; exact PostS.refl hp.1 noPanic_ok
+  | succ t =>
+    simp only [forallArr]
+    obtain ⟨x, hx, hxok⟩ := view_get hp.1 hv (k := o + i) (by omega)
+    split
+    · rename_i hnone; rw [hx] at hnone; cases hnone
+    · rename_i v hv'
+      rw [hx] at hv'; cases hv'
+      have hp0 : Pre (pushS s x) := ⟨wfs_pushS hp.1 hxok, hp.2⟩
+      have g1 := ih.one (pushS s x) p true hp0 ho
+      generalize execOne n m (pushS s x) p true = p1 at g1
+      obtain ⟨s1, r1⟩ := p1
+      dsimp only
+      exact postS_loop (sim_setStack s _) g1
+        (ih.fArr s1 r o (i + 1) t p (g1.pre hp0) (g1.ok ho) ((g1.viewObjs (s := pushS s x) hv).le (by omega)))
+
+theorem step_forallStr {m n : Nat} (ih : All m n) (s : State) (r o i t : Nat) (p : Obj) (hp : Pre s)
+    (ho : OK s p) (hv : ViewBytes s r (o + i + t)) : PostS s (forallStr (n + 1) m s r o i t p) := by
+  cases t with
+  | zero => simp only [forallStr]; exact PostS.refl hp.1 noPanic_ok
+  | succ t =>
+    simp only [forallStr]
+    obtain ⟨x, hx⟩ := view_get_bytes hp.1 hv (k := o + i) (by omega)
+    split
+    · rename_i hnone; rw [hx] at hnone; cases hnone
+    · rename_i c hc
+      have hp0 : Pre (pushS s (.int c.toNat)) := ⟨wfs_pushS hp.1 (by trivial), hp.2⟩
+      have g1 := ih.one (pushS s (.int c.toNat)) p true hp0 ho
+      generalize execOne n m (pushS s (.int c.toNat)) p true = p1 at g1
+      obtain ⟨s1, r1⟩ := p1
+      dsimp only
+      exact postS_loop (sim_setStack s _) g1
+        (ih.fStr s1 r o (i + 1) t p (g1.pre hp0) (g1.ok ho)
+          ((g1.viewBytes (s := pushS s (.int c.toNat)) hv).le (by omega)))
+
+theorem step_forallDict {m n : Nat} (ih : All m n) (s : State) (d : Nat) (ks : List Name) (p : Obj) (hp : Pre s)
+    (ho : OK s p) (hd : isDictRef s.vm.heap s.vm.roots.resources d) :
+    PostS s (forallDict (n + 1) m s d ks p) := by
+  cases ks with
+  | nil => simp only [forallDict]; exact PostS.refl hp.1 noPanic_ok
+  | cons k ks =>
+    simp only [forallDict]
+    split
+    · exact ih.fDict s d ks p hp ho hd
+    · rename_i v hv
+      have hvok : OK s v := dictGet_ok hp.1.vm hd.1 hv
+      have hst : ∀ x ∈ (v :: Obj.name k :: s.vm.stack), OK s x := by
+        intro x hx
+        rcases List.mem_cons.mp hx with rfl | hx
+        · exact hvok
+        · rcases List.mem_cons.mp hx with rfl | hx
+          · trivial
+          · exact hp.1.vm.stack x hx
+      have hp0 : Pre (setStack s (v :: .name k :: s.vm.stack)) := pre_setStack hp hst
+      have g1 := ih.one (setStack s (v :: .name k :: s.vm.stack)) p true hp0 ho
+      generalize execOne n m (setStack s (v :: .name k :: s.vm.stack)) p true = p1 at g1
+      obtain ⟨s1, r1⟩ := p1
+      dsimp only
+      refine postS_loop (sim_setStack s _) g1 (ih.fDict s1 d ks p (g1.pre hp0) (g1.ok ho) ?_)
+      rw [g1.roots]
+      exact isDictRef_mono g1.ext hd
+
+theorem step_scanLoop {m n : Nat} (ih : All m n) (s : State) (hp : Pre s) : PostS s (scanLoop (n + 1) m s) := by
+  simp only [scanLoop]
+  obtain ⟨st, hres, hval⟩ := withScanner_safe scanToken_tok s hp.1
+  generalize withScanner s Scan.scanToken = p0 at st hres hval
+  obtain ⟨s1, r0⟩ := p0
+  dsimp only at st hres hval ⊢
+  have g0 : PostS s (s1, .ok) := st.post hp.1 noPanic_ok
+  split
+  · exact st.post hp.1 noPanic_ok
+  · rename_i e _
+    exact st.post hp.1 (noPanic_err (hres e rfl))
+  · rename_i tok
+    obtain ⟨g2, ok2⟩ := objOfTok_post g0.wf (hval tok rfl)
+    generalize objOfTok s1 tok = p2 at g2 ok2
+    obtain ⟨s2, o⟩ := p2
+    dsimp only at g2 ok2 ⊢
+    have g02 := g0.seq g2
+    have hp2 : Pre s2 := g02.pre hp
+    have g3 := ih.one s2 o false hp2 ok2
+    generalize execOne n m s2 o false = p3 at g3
+    obtain ⟨s3, r3⟩ := p3
+    dsimp only
+    split
+    · exact g02.seq (g3.seq (ih.sLoop s3 (g3.pre hp2)))
+    · exact g02.seq g3
+
+theorem npe_noPS : NPE .noPS := by intro s; simp
+
+theorem step_scanRun {m n : Nat} (ih : All m n) (s : State) (h : WFS s) : PostS s (scanRun (n + 1) m s) := by
+  simp only [scanRun]
+  have key : ∀ (st : State × Option Err), ScanStep s st.1 → (∀ e, st.2 = some e → NPE e) →
+      PostS s (match st with
+        | (s1, some e) => (s1, Res.err e)
+        | (s1, none) =>
+          match scanLoop n m { s1 with scannerDepth := s1.scannerDepth + 1 } with
+          | (s2, r) => ({ s2 with scannerDepth := s2.scannerDepth - 1 }, r)) := by
+    intro st hst he
+    obtain ⟨s1, eo⟩ := st
+    dsimp only at hst he
+    cases eo with
+    | some e => exact hst.post h (noPanic_err (he e rfl))
+    | none =>
+      dsimp only
+      have w1 : WFS s1 := hst.wfs h
+      have g := ih.sLoop { s1 with scannerDepth := s1.scannerDepth + 1 } ⟨⟨w1.vm, w1.sc⟩, Nat.succ_ne_zero _⟩
+      generalize scanLoop n m { s1 with scannerDepth := s1.scannerDepth + 1 } = p at g
+      obtain ⟨s2, r⟩ := p
+      refine ⟨⟨g.wf.vm, g.wf.sc⟩, ?_, ?_, ?_, ?_, g.nopanic⟩
+      · have := g.ext
+        dsimp only at this ⊢
+        rw [hst.vm] at this
+        exact this
+      · have := g.roots
+        dsimp only at this ⊢
+        rw [hst.vm] at this
+        exact this
+      · have := g.depth
+        have := hst.depth
+        dsimp only at *
+        omega
+      · intro hne
+        have hne1 : s1.scanner.eexec ≠ 0 := by rw [hst.eexec]; exact hne
+        have := g.busy hne1
+        dsimp only at this ⊢
+        exact ⟨this.1.trans hst.eexec, this.2.trans hst.reg⟩
+  apply key
+  · split
+    · obtain ⟨st, hres, _⟩ := withScanner_safe (safe_peekN 2 3) s h
+      generalize withScanner s (Scan.peekN 2 3) = p0 at st hres
+      obtain ⟨s1, r0⟩ := p0
+      dsimp only at st hres ⊢
+      split
+      · split
+        · exact ⟨st.vm, st.depth, st.eexec, st.reg, st.err⟩
+        · split <;> exact st
+      · exact st
+    · exact ⟨rfl, rfl, rfl, rfl, h.sc.err⟩
+  · split
+    · obtain ⟨st, hres, _⟩ := withScanner_safe (safe_peekN 2 3) s h
+      generalize withScanner s (Scan.peekN 2 3) = p0 at st hres
+      obtain ⟨s1, r0⟩ := p0
+      dsimp only at st hres ⊢
+      split
+      · split
+        · intro e he; cases he
+        · split
+          · intro e he; cases he; exact npe_noPS
+          · intro e he; cases he; exact npe_noPS
+          · rename_i e' _ hc
+            intro e he; cases he
+            split at hc
+            · exact st.err _ hc
+            · cases hc
+      · rename_i e' 
+        intro e he; cases he
+        exact hres _ rfl
+    · intro e he; cases he
+
+theorem stk {s : State} (h : WFS s) {l : List Obj} (hst : s.vm.stack = l) : ∀ o ∈ l, OK s o := by
+  intro o ho; exact h.vm.stack o (by rw [hst]; exact ho)
+
+theorem step_callBuiltin {m n : Nat} (ih : All m n) (s : State) (id : String) (hp : Pre s)
+    (hk : knownBuiltin id) : PostS s (callBuiltin (n + 1) m s id) := by
+  unfold callBuiltin
+  split
+  · -- exec
+    split
+    · exact PostS.refl hp.1 (noPanic_ps _)
+    · rename_i obj rest hst
+      have hall := stk hp.1 hst
+      have hobj : OK s obj := hall obj (by simp)
+      have hrest : ∀ o ∈ rest, OK s o := fun o ho => hall o (by simp [ho])
+      dsimp only
+      split
+      · rename_i b
+        exact PostS.start (sim_setStack s rest) (ih.call _ b (pre_setStack hp hrest) hobj)
+      · exact PostS.start (sim_setStack s rest) (ih.one _ _ true (pre_setStack hp hrest) hobj)
+      · exact PostS.start (sim_setStack s rest) (PostS.refl (wfs_setStack hp.1 hrest) (noPanic_ps _))
+  · -- if
+    split
+    · rename_i proc c rest hst
+      have hall := stk hp.1 hst
+      have hproc : OK s proc := hall proc (by simp)
+      have hrest : ∀ o ∈ rest, OK s o := fun o ho => hall o (by simp [ho])
+      split
+      · dsimp only
+        split
+        · exact PostS.start (sim_setStack s rest) (ih.one _ _ true (pre_setStack hp hrest) hproc)
+        · exact PostS.start (sim_setStack s rest) (PostS.refl (wfs_setStack hp.1 hrest) noPanic_ok)
+      · exact PostS.refl hp.1 (noPanic_ps _)
+    · exact PostS.refl hp.1 (noPanic_ps _)
+  · -- ifelse
+    split
+    · rename_i p2 p1 c rest hst
+      have hall := stk hp.1 hst
+      have hp2 : OK s p2 := hall p2 (by simp)
+      have hp1 : OK s p1 := hall p1 (by simp)
+      have hrest : ∀ o ∈ rest, OK s o := fun o ho => hall o (by simp [ho])
+      split
+      · dsimp only
+        split
+        · exact PostS.start (sim_setStack s rest) (ih.one _ _ true (pre_setStack hp hrest) hp1)
+        · exact PostS.start (sim_setStack s rest) (ih.one _ _ true (pre_setStack hp hrest) hp2)
+      · exact PostS.refl hp.1 (noPanic_ps _)
+    · exact PostS.refl hp.1 (noPanic_ps _)
+  · -- for
+    split
+    · rename_i proc lim inc ini rest hst
+      have hall := stk hp.1 hst
+      have hproc : OK s proc := hall proc (by simp)
+      have hrest : ∀ o ∈ rest, OK s o := fun o ho => hall o (by simp [ho])
+      repeat' split
+      all_goals first
+        | exact PostS.refl hp.1 (noPanic_ps _)
+        | exact PostS.start (sim_setStack s rest) (ih.forL _ _ _ _ _ (pre_setStack hp hrest) hproc)
+    · exact PostS.refl hp.1 (noPanic_ps _)
+  · -- repeat
+    split
+    · rename_i proc c rest hst
+      have hall := stk hp.1 hst
+      have hproc : OK s proc := hall proc (by simp)
+      have hrest : ∀ o ∈ rest, OK s o := fun o ho => hall o (by simp [ho])
+      repeat' split
+      all_goals first
+        | exact PostS.refl hp.1 (noPanic_ps _)
+        | exact PostS.start (sim_setStack s rest) (ih.rep _ _ _ (pre_setStack hp hrest) hproc)
+    · exact PostS.refl hp.1 (noPanic_ps _)
+  · -- loop
+    split
+    · exact PostS.refl hp.1 (noPanic_ps _)
+    · rename_i proc rest hst
+      have hall := stk hp.1 hst
+      have hproc : OK s proc := hall proc (by simp)
+      have hrest : ∀ o ∈ rest, OK s o := fun o ho => hall o (by simp [ho])
+      exact PostS.start (sim_setStack s rest) (ih.loop _ _ (pre_setStack hp hrest) hproc)
+  · -- forall
+    split
+    · rename_i proc obj rest hst
+      have hall := stk hp.1 hst
+      have hproc : OK s proc := hall proc (by simp)
+      have hobj : OK s obj := hall obj (by simp)
+      have hrest : ∀ o ∈ rest, OK s o := fun o ho => hall o (by simp [ho])
+      split
+      · split
+        · rename_i r o l
+          refine PostS.start (sim_setStack s rest) (ih.fArr _ r o 0 l _ (pre_setStack hp hrest) hproc ?_)
+          exact (viewObjs_of_arr hobj).le (by omega)
+        · rename_i r o l
+          refine PostS.start (sim_setStack s rest) (ih.fStr _ r o 0 l _ (pre_setStack hp hrest) hproc ?_)
+          exact (viewBytes_of_str hobj).le (by omega)
+        · rename_i d
+          exact PostS.start (sim_setStack s rest) (ih.fDict _ d _ _ (pre_setStack hp hrest) hproc hobj)
+        · exact PostS.refl hp.1 (noPanic_ps _)
+      · exact PostS.refl hp.1 (noPanic_ps _)
+    · exact PostS.refl hp.1 (noPanic_ps _)
+  · exact readstring_post hp
+  · exact defaultErrorHandler_post hp.1
+  · -- eexec
+    split
+    · exact PostS.refl hp.1 (noPanic_ps _)
+    · rename_i rest hst
+      have hall := stk hp.1 hst
+      have hrest : ∀ o ∈ rest, OK s o := fun o ho => hall o (by simp [ho])
+      dsimp only
+      have hd' : (s.scannerDepth == 0) = false := by simp [hp.2]
+      simp only [hd', Bool.false_eq_true, if_false]
+      have hk2 : 2 ≤ s.vm.dictStack.length := hp.1.vm.dsLen
+      have wf1 : WF (pushDict { s.vm with stack := rest } s.vm.roots.systemDict) :=
+        wf_pushDict hp.1.vm hp.1.vm.rSystem hrest
+      have hb := beginEexec_post s.scanner hp.1.sc
+      have hbusy := beginEexec_busy s.scanner
+      unfold withScanner
+      dsimp only
+      generalize Scan.beginEexec s.scanner = pb at hb hbusy
+      obtain ⟨rb, scb⟩ := pb
+      dsimp only at hb ⊢
+      have wfs2 : WFS ({ s with vm := pushDict { s.vm with stack := rest } s.vm.roots.systemDict, scanner := scb } : State) :=
+        ⟨wf1, ⟨hb.err, hb.reg⟩⟩
+      cases rb with
+      | error e =>
+        dsimp only
+        refine ⟨⟨wf_truncDictStack wf1 hk2, ⟨hb.err, hb.reg⟩⟩, ?_, ?_, rfl, ?_, noPanic_err (hb.res e rfl)⟩
+        · show Ext s.vm.heap (truncDictStack _ _).heap
+          rw [truncDictStack_heap]; exact Ext.refl _
+        · show (truncDictStack _ _).roots = _
+          rw [truncDictStack_roots]; rfl
+        · intro hne
+          have := hbusy hne
+          cases this
+          exact ⟨rfl, rfl⟩
+      | ok u =>
+        dsimp only
+        have hok := hb.ok rfl
+        have g3 := ih.sRun _ wfs2
+        generalize scanRun n m _ = p3 at g3
+        obtain ⟨s3, r3⟩ := p3
+        dsimp only
+        have hbz := g3.busy hok.1
+        dsimp only at hbz
+        have nobusy : s.scanner.eexec ≠ 0 → False := by
+          intro hne
+          have := hbusy hne
+          cases this
+        have fin : ∀ (sc' : Scanner) (r' : Res), ScOK sc' → NoPanic r' →
+            PostS s ({ s3 with scanner := sc', vm := truncDictStack s3.vm s.vm.dictStack.length }, r') := by
+          intro sc' r' hsc hn
+          refine ⟨⟨wf_truncDictStack g3.wf.vm hk2, hsc⟩, ?_, ?_, g3.depth, fun hne => (nobusy hne).elim, hn⟩
+          · show Ext s.vm.heap (truncDictStack _ _).heap
+            rw [truncDictStack_heap]; exact g3.ext
+          · show (truncDictStack _ _).roots = _
+            rw [truncDictStack_roots]; exact g3.roots
+        have sc4 : ScOK { s3.scanner with eexec := 0 } :=
+          ⟨g3.wf.sc.err, fun _ => by show s3.scanner.regurgitate = false; rw [hbz.2]; exact hok.2⟩
+        split
+        · exact fin _ _ sc4 noPanic_ok
+        · exact fin _ _ sc4 noPanic_ok
+        · exact fin s3.scanner r3 g3.wf.sc g3.nopanic
+    · exact PostS.refl hp.1 (noPanic_ps _)
+  · -- operators without re-entry
+    rename_i h1 h2 h3 h4 h5 h6 h7 h8 h9 h10
+    split
+    · rename_i v r hv
+      exact PostS.vm hp.1 (pure_post id s.vm (v, r) hp.1.vm hv)
+    · rename_i hnone
+      rcases known_dispatch id s.vm hk with hm | hs
+      · simp only [reentrantIds, List.mem_cons, List.not_mem_nil, or_false] at hm
+        rcases hm with rfl | rfl | rfl | rfl | rfl | rfl | rfl | rfl | rfl | rfl <;> simp_all
+      · rw [hnone] at hs; cases hs
+
+theorem all_fuel (m : Nat) : ∀ fuel, All m fuel := by
+  intro fuel
+  induction fuel with
+  | zero => exact all_zero m
+  | succ n ih =>
+    exact ⟨step_execOne ih, step_execBody ih, step_execTail ih, step_runBody ih, step_callBuiltin ih,
+      step_forLoop ih, step_repeatLoop ih, step_loopLoop ih, step_forallArr ih, step_forallStr ih,
+      step_forallDict ih, step_scanRun ih, step_scanLoop ih⟩
+
+/-! ### `Execute` -/
+
+theorem scOK_fresh (input : List UInt8) (fault : Option String) :
+    ScOK ({ src := input, fault := fault } : Scanner) :=
+  ⟨(by intro e he; cases he), fun _ => rfl⟩
+
+theorem wfs_newInterpreter : WFS newInterpreter := ⟨wf_newVM, scOK_fresh [] none⟩
+
+/-- one call of `Execute` on a well-formed interpreter: the interpreter stays well-formed,
+its heap is only extended, and the result is not a panic -/
+theorem execute_post (fuel m : Nat) (s : State) (h : WFS s) (input : List UInt8) (fault : Option String) :
+    WFS (execute fuel m s input fault).1 ∧
+    Ext s.vm.heap (execute fuel m s input fault).1.vm.heap ∧
+    (execute fuel m s input fault).1.vm.roots = s.vm.roots ∧
+    NoPanic (execute fuel m s input fault).2 := by
+  unfold execute
+  dsimp only
+  have w0 : WFS ({ s with scanner := { src := input, fault := fault } } : State) := ⟨h.vm, scOK_fresh input fault⟩
+  have g := (all_fuel m fuel).sRun _ w0
+  generalize scanRun fuel m _ = p at g
+  obtain ⟨s1, r⟩ := p
+  dsimp only
+  split
+  · exact ⟨g.wf, g.ext, g.roots, noPanic_ps _⟩
+  · exact ⟨⟨g.wf.vm, g.wf.sc⟩, g.ext, g.roots, noPanic_ok⟩
+  · exact ⟨⟨g.wf.vm, g.wf.sc⟩, g.ext, g.roots, noPanic_ok⟩
+  · exact ⟨g.wf, g.ext, g.roots, g.nopanic⟩
+
 end PsVerif.Proofs.WFState
+
+#print axioms PsVerif.Proofs.WFState.scanToken_tok
+#print axioms PsVerif.Proofs.WFState.beginEexec_post
+#print axioms PsVerif.Proofs.WFState.all_fuel
+#print axioms PsVerif.Proofs.WFState.execute_post
